@@ -35,6 +35,9 @@ type havocEvent struct {
 	// allocated after clock; rows at references <= clock are unchanged.
 	partial func(key string) bool
 	clock   Term
+	// loopFrame: the event is a loop-head havoc in a function with a declared frame; the new
+	// symbol of a key satisfies the frame invariant (asserted at loop entry and at back edges)
+	loopFrame bool
 }
 
 func (u *Unit) clk0() Term { return u.d.Const("clk0", SInt) }
@@ -117,7 +120,11 @@ func (u *Unit) heapBaseAt(st *State, key string, sort Sort, n int) Term {
 	for i := n - 1; i >= 0; i-- {
 		h := st.havocs[i]
 		if h.pred(key) {
-			return u.d.Const(fmt.Sprintf("H%d_%s", h.id, key), sort)
+			nw := u.d.Const(fmt.Sprintf("H%d_%s", h.id, key), sort)
+			if h.loopFrame && u.old != nil {
+				u.frameAssume(st, key, nw)
+			}
+			return nw
 		}
 		if h.partial != nil && h.partial(key) && sort.isArray() && sort.arrIdx() == SInt {
 			nw := u.d.Const(fmt.Sprintf("H%d_%s", h.id, key), sort)
@@ -597,6 +604,10 @@ func (u *Unit) havocHeap(st *State, pred func(key string) bool) {
 // havocHeap2 additionally takes a partial predicate: keys that were written only at
 // references allocated after clock keep their rows at older references.
 func (u *Unit) havocHeap2(st *State, pred, partial func(key string) bool, clock Term) {
+	u.havocHeap3(st, pred, partial, clock, false)
+}
+
+func (u *Unit) havocHeap3(st *State, pred, partial func(key string) bool, clock Term, loopFrame bool) {
 	u.nextHavoc++
 	id := u.nextHavoc
 	p := func(key string) bool { return !strings.HasPrefix(key, "$") && pred(key) }
@@ -609,25 +620,35 @@ func (u *Unit) havocHeap2(st *State, pred, partial func(key string) bool, clock 
 	for _, k := range sortedKeys(st.heap) {
 		t := st.heap[k]
 		if p(k) {
-			st.heap[k] = u.d.Const(fmt.Sprintf("H%d_%s", id, k), t.Sort)
+			nw := u.d.Const(fmt.Sprintf("H%d_%s", id, k), t.Sort)
+			st.heap[k] = nw
+			if loopFrame && u.old != nil {
+				u.frameAssume(st, k, nw)
+			}
 		} else if pp != nil && pp(k) && t.Sort.isArray() && t.Sort.arrIdx() == SInt {
 			nw := u.d.Const(fmt.Sprintf("H%d_%s", id, k), t.Sort)
 			st.assume(frameFact(nw, t, clock))
 			st.heap[k] = nw
 		}
 	}
-	st.havocs = append(st.havocs, havocEvent{id: id, pred: p, partial: pp, clock: clock})
+	st.havocs = append(st.havocs, havocEvent{id: id, pred: p, partial: pp, clock: clock, loopFrame: loopFrame})
 }
 
 // havocGhost forgets one ghost variable or ghost field entirely.
-func (u *Unit) havocGhost(st *State, name string) {
+func (u *Unit) havocGhost(st *State, name string) { u.havocGhost2(st, name, false) }
+
+func (u *Unit) havocGhost2(st *State, name string, loopFrame bool) {
 	u.nextHavoc++
 	id := u.nextHavoc
 	for _, key := range []string{"$:" + name, "$F:" + name} {
 		k := key
 		if t, ok := st.heap[k]; ok {
-			st.heap[k] = u.d.Const(fmt.Sprintf("H%d_%s", id, k), t.Sort)
+			nw := u.d.Const(fmt.Sprintf("H%d_%s", id, k), t.Sort)
+			st.heap[k] = nw
+			if loopFrame && u.old != nil {
+				u.frameAssume(st, k, nw)
+			}
 		}
 	}
-	st.havocs = append(st.havocs, havocEvent{id: id, pred: func(key string) bool { return key == "$:"+name || key == "$F:"+name }})
+	st.havocs = append(st.havocs, havocEvent{id: id, loopFrame: loopFrame, pred: func(key string) bool { return key == "$:"+name || key == "$F:"+name }})
 }
